@@ -1449,6 +1449,8 @@ void setter_entry()
       using P = frp::uniform_int<st_int>;
       fr::distribution::basic<P> d{P::min(st_int(a)), P::max(st_int(b))};
       std::uniform_int_distribution<int> sd(a, b);
+      if (d.min().get() != sd.min() || d.max().get() != sd.max())
+        vf::violation(key + "/uniform_int<st_int>/min-max", "mismatch", "bounds reported after construction differ from the wrapped distribution's");
       bool ok = true;
       for (unsigned i = 0; i < before; ++i)
         ok = (d(g1).get() == sd(g2)) && ok;
@@ -1456,6 +1458,16 @@ void setter_entry()
       sd.param(std::uniform_int_distribution<int>::param_type(c, d2));
       if (d.distribution().a() != c || d.distribution().b() != d2)
         vf::violation(key + "/uniform_int<st_int>/parameters", "mismatch", "param(p) did not install the given interval");
+      // the bounds the wrapper reports are those of the wrapped distribution (re-wrapped), at every point of its history
+      if (d.min().get() != sd.min() || d.max().get() != sd.max())
+        vf::violation(key + "/uniform_int<st_int>/min-max-after-param", "mismatch",
+                      "after param(" + std::to_string(c) + "," + std::to_string(d2) + ") the wrapper reports [" + std::to_string(d.min().get()) + "," + std::to_string(d.max().get()) +
+                          "], the wrapped distribution [" + std::to_string(sd.min()) + "," + std::to_string(sd.max()) + "]");
+      {
+        fr::distribution::basic<P> const copy(d);
+        if (copy.min().get() != sd.min() || copy.max().get() != sd.max())
+          vf::violation(key + "/uniform_int<st_int>/min-max-of-a-copy-after-param", "mismatch", "");
+      }
       bool inside = true;
       for (unsigned i = 0; i < 64; ++i)
       {
